@@ -192,7 +192,7 @@ pub const TIMEOUT: Duration = Duration::from_secs(20);
 // C08, CLI clause: a rejected input makes the run fail and leaves the output location untouched
 // ------------------------------------------------------------------------------------------
 
-fn c08_sources() -> Vec<(&'static str, String, Option<String>)> {
+pub fn c08_sources() -> Vec<(&'static str, String, Option<String>)> {
     // (construct label, source with the construct, source with the construct under a skip marker)
     let mk = |field_ty: &str, skip: Option<&str>| -> String {
         let attr = match skip {
@@ -295,6 +295,94 @@ pub fn c08_cli_family(rep: &mut Report) {
     rep.cov_add("evaluations", judgements);
     rep.cov_add("traces_validated_against_impl", runs);
     let _ = File::default();
+}
+
+/// C08, arrival orders: one or two files with an unsupported construct among good files of the same fold bucket,
+/// every order in which the results can reach the collector (forced through the hooks). The run must fail, name the
+/// offending file(s) and leave the pre-existing output untouched whichever file is folded last.
+pub fn c08_arrival_family(rep: &mut Report) {
+    use crate::e3;
+    if !bin_available() {
+        return;
+    }
+    #[derive(Clone)]
+    struct Job {
+        label: String,
+        files: Vec<(String, String)>,
+        bad: Vec<String>,
+        schedule: Vec<String>,
+        lang: Lang,
+        multi: bool,
+    }
+    let srcs = c08_sources();
+    let thorough = rep.thorough();
+    let constructs: Vec<&(&'static str, String, Option<String>)> = if thorough { srcs.iter().collect() } else { srcs.iter().filter(|c| ["u64-field", "tuple-struct-2", "enum-no-tag", "flatten", "const-string"].contains(&c.0)).collect() };
+    let langs: Vec<Lang> = if thorough { ALL_LANGS.to_vec() } else { vec![Lang::TypeScript, Lang::Kotlin] };
+    let mut jobs = Vec::new();
+    let perms3: Vec<Vec<usize>> = vec![vec![0, 1, 2], vec![0, 2, 1], vec![1, 0, 2], vec![1, 2, 0], vec![2, 0, 1], vec![2, 1, 0]];
+    for (ci, c) in constructs.iter().enumerate() {
+        // the item names of the bad file are made unique so that the good files' items cannot shadow them
+        let bad_src = c.1.replace("Good", "BadGood").replace("Outer", "BadOuter");
+        let second = &constructs[(ci + 1) % constructs.len()];
+        let bad2_src = second.1.replace("Good", "SecondGood").replace("Outer", "SecondOuter").replace("NAME", "SECOND_NAME");
+        for two_bad in [false, true] {
+            if two_bad && !thorough && ci > 1 {
+                continue;
+            }
+            let files: Vec<(String, String)> = vec![
+                ("fbad".to_string(), bad_src.clone()),
+                if two_bad { ("fbad2".to_string(), bad2_src.clone()) } else { ("fgood1".to_string(), e3::good_source("fgood1")) },
+                ("fgood2".to_string(), e3::good_source("fgood2")),
+            ];
+            let bad: Vec<String> = if two_bad { vec![s("fbad"), s("fbad2")] } else { vec![s("fbad")] };
+            let stems: Vec<&str> = files.iter().map(|f| f.0.as_str()).collect();
+            for perm in &perms3 {
+                for &lang in &langs {
+                    for multi in [false, true] {
+                        let mut schedule = e3::start_barrier(&stems);
+                        schedule.extend(perm.iter().map(|i| format!("send:{}", stems[*i])));
+                        jobs.push(Job {
+                            label: format!("construct={}|bad_files={}|order={}|mode={}", c.0, bad.len(), perm.iter().map(|i| stems[*i]).collect::<Vec<_>>().join(">"), if multi { "multi-same-crate" } else { "single" }),
+                            files: files.clone(),
+                            bad: bad.clone(),
+                            schedule,
+                            lang,
+                            multi,
+                        });
+                    }
+                }
+            }
+        }
+    }
+    let results = par_map(&jobs, crate::report::threads(), |j| e3::replay_layout(&j.files, &j.schedule, j.lang, j.multi, true, 3, &[]));
+    let mut rejected = 0u64;
+    for (j, r) in jobs.iter().zip(results.iter()) {
+        let detail = |what: &str| json!({"argv": r.argv, "schedule": r.schedule, "files": j.files.iter().map(|(p, b)| json!({"stem": p, "content": b})).collect::<Vec<_>>(), "exit_code": r.code, "stderr": r.stderr.chars().take(1500).collect::<String>(), "observation": what, "lang": j.lang.name()});
+        if r.stderr.contains("schedule infeasible") || r.stderr.contains("verif: timeout") {
+            rep.machinery(format!("C08 arrival order: forced schedule not followed ({}): {}", j.label, r.stderr.chars().take(200).collect::<String>()));
+            continue;
+        }
+        if r.class != "error" {
+            rep.vios.add(Violation { sig: format!("C08|cli-arrival|{}|expected-error-got-{}|{}", j.lang.name(), r.class, j.label), detail: detail("a file with an unsupported construct was folded before other files of its bucket; the run must still fail") });
+            continue;
+        }
+        rejected += 1;
+        for b in &j.bad {
+            if !r.stderr.contains(&format!("{b}.rs")) {
+                rep.vios.add(Violation { sig: format!("C08|cli-arrival|{}|diagnostic-does-not-name-file:{b}|{}", j.lang.name(), j.label), detail: detail("stderr does not name this offending file") });
+            }
+        }
+        if !r.outputs.is_empty() {
+            rep.vios.add(Violation { sig: format!("C08|cli-arrival|{}|output-written-on-error|{}", j.lang.name(), j.label), detail: detail("an output file was created although the run failed") });
+        }
+    }
+    rep.cov(
+        "cli_rejection_arrival_orders",
+        json!({"runs": jobs.len(), "rejected_with_error": rejected, "files_per_run": 3, "orders": 6, "bad_files": [1, 2], "modes": ["single-file", "multi-file, one crate"],
+               "constructs": constructs.iter().map(|c| c.0).collect::<Vec<_>>(), "languages": langs.iter().map(|l| l.name()).collect::<Vec<_>>(), "how": "each file is its own walk root; the hooks release the sends in the given order, so the collector folds the files in exactly that order"}),
+    );
+    rep.cov_add("evaluations", jobs.len() as u64);
+    rep.cov_add("traces_validated_against_impl", jobs.len() as u64);
 }
 
 // ------------------------------------------------------------------------------------------
